@@ -3358,9 +3358,15 @@ theorem handleData_inv (e : Engine) (bs : Bytes) (hinv : Inv e) : Inv (e.handleD
     · simp only []
       have h1 : Inv { e with dec := (decodeBytes { version := e.cfg.version, maxSize := e.inboundMax } e.dec bs).dec } :=
         hinv.of_eq rfl rfl
+      have h2 := (handlePackets_inv (decodeBytes { version := e.cfg.version, maxSize := e.inboundMax } e.dec bs).packets _ h1 hnd).1
+      generalize ({ e with dec := (decodeBytes { version := e.cfg.version, maxSize := e.inboundMax } e.dec bs).dec } : Engine).handlePackets (decodeBytes { version := e.cfg.version, maxSize := e.inboundMax } e.dec bs).packets = x at h2 ⊢
+      obtain ⟨e2, r2⟩ := x
+      simp only [] at h2 ⊢
       split
-      · exact h1.halt
-      · exact (handlePackets_inv _ _ h1 hnd).1
+      · exact h2
+      · split
+        · exact h2.halt
+        · exact h2
 
 /-! ### service: seating the next operation -/
 
@@ -4344,11 +4350,22 @@ theorem serviceCore_out (e : Engine) (cap prefill : Nat) (hok : e.core.Ok) (h : 
       · exact serviceQueue_out e false cap prefill hok h (fun hh => by cases hh)
   | connected =>
     simp only []
-    have hka := serviceKeepAlive_hk e (by rw [hst]; decide)
-    have hoka := (hka.stp.pres hok).1
-    have ha := hka.stp.keeps hok h
-    have sva := hka.sv
-    generalize e.serviceKeepAlive = xa at hka hoka ha sva ⊢
+    have hk0 := processAckTimeouts_hk (e.timeouts.length + 1) e
+    have hok0 := (hk0.stp.pres hok).1
+    have h0 := hk0.stp.keeps hok h
+    have sv0 := hk0.sv
+    generalize Engine.processAckTimeouts (e.timeouts.length + 1) e = x0 at hk0 hok0 h0 sv0 ⊢
+    obtain ⟨e0, r0⟩ := x0
+    simp only [] at hok0 h0 sv0 ⊢
+    split
+    · exact ⟨Outcome.of_big h0, sv0⟩
+    have hst0 : e0.state ≠ .pendingConnack := fun hh => by
+      have := sv0.pc hh; rw [hst] at this; cases this
+    have hka := serviceKeepAlive_hk e0 hst0
+    have hoka := (hka.stp.pres hok0).1
+    have ha := hka.stp.keeps hok0 h0
+    have sva := sv0.trans hka.sv
+    generalize e0.serviceKeepAlive = xa at hka hoka ha sva ⊢
     obtain ⟨ea, ra⟩ := xa
     simp only [] at hoka ha sva ⊢
     split
